@@ -29,6 +29,7 @@ package main
 import (
 	"bytes"
 	"crypto/hmac"
+	"encoding"
 	"encoding/hex"
 	"fmt"
 	"hash"
@@ -136,6 +137,12 @@ func runCase(line string) string {
 		case "I":
 			h := sm3.New()
 			return fmt.Sprintf("ok %d %d", h.Size(), h.BlockSize())
+		case "B":
+			var h interface{} = sm3.New()
+			_, m := h.(encoding.BinaryMarshaler)
+			_, u := h.(encoding.BinaryUnmarshaler)
+			b2i := map[bool]int{false: 0, true: 1}
+			return fmt.Sprintf("ok %d %d", b2i[m], b2i[u])
 		case "H":
 			return runOps(sm3.New(), f[2])
 		case "N":
@@ -299,6 +306,7 @@ func gen(seed uint64, tier string, o *hx.Out) {
 	sseed := int(seed%1000) + 1
 
 	emit(fmt.Sprintf("I %d -", next()))
+	emit(fmt.Sprintf("B %d -", next()))
 	// the long cases first, so that the sharded runner starts them early
 	type tc struct{ total, chunk int }
 	streams := []tc{{1 << 16, 1}, {1 << 17, 1021}, {1 << 18, 4099}}
